@@ -92,8 +92,9 @@ type panicSite struct {
 	in     ssa.Instruction
 	expr   string // stable rendering of the operand
 	detail string
-	canon  string // the same expression with local names replaced by their types (stable under renaming)
-	alt    string // optional second canonical key (e.g. the type of the channel of a send)
+	canon  string        // the same expression with local names replaced by their types (stable under renaming)
+	alt    string        // optional second canonical key (e.g. the type of the channel of a send)
+	render func() string // renders the operand (used again under a calling context)
 }
 
 type panicModel struct {
@@ -344,15 +345,28 @@ func (bp *boundsProver) path(v ssa.Value, depth int) string {
 		return ""
 	}
 	v = strip(v)
+	// a field of a parameter object: what the calling context put there
+	if po, _ := paramObjectField(v); po != nil {
+		if r := bp.sc.Resolve(v); r != v {
+			return bp.path(r, depth+1)
+		}
+	}
 	switch x := v.(type) {
 	case *ssa.Parameter:
 		r := bp.sc.Resolve(x)
 		if r != ssa.Value(x) {
-			return bp.path(r, depth+1)
+			// (what the context passes, when that has a path of its own; else the parameter itself)
+			if p := bp.path(r, depth+1); p != "" {
+				return p
+			}
 		}
 		return fmt.Sprintf("param(%s#%d)", x.Parent().Name(), paramIndex(x))
 	case *ssa.UnOp:
 		if x.Op == token.MUL {
+			// a whole struct value read from a local cell (a by-value parameter object handed on)
+			if a, ok := x.X.(*ssa.Alloc); ok {
+				return bp.path(a, depth+1)
+			}
 			if fa, ok := x.X.(*ssa.FieldAddr); ok {
 				b := bp.path(fa.X, depth+1)
 				if b == "" {
@@ -460,6 +474,26 @@ func (bp *boundsProver) lenLB(x ssa.Value, depth int) int64 {
 		}
 	}
 	switch v := x.(type) {
+	case *ssa.Extract:
+		// buf, err := readExactly(conn, K, …) with err == nil on this path: an allocating read helper
+		// returns a buffer of exactly K bytes when it succeeds
+		if cl, ok := v.Tuple.(*ssa.Call); ok && v.Index == 0 {
+			if g := cl.Call.StaticCallee(); g != nil && ownPkgPath(pkgPathOf(g)) {
+				if ni, isAR := allocatingReader(g); isAR && ni < len(cl.Call.Args) {
+					if k, isK := constInt(cl.Call.Args[ni]); isK && k > 0 {
+						for _, f := range bp.facts {
+							if f.Op != token.EQL || !isNilConst(f.Y) {
+								continue
+							}
+							ev := errValueOf(f.X)
+							if e, isE := ev.(*ssa.Extract); isE && e.Index == 1 && e.Tuple == ssa.Value(cl) {
+								upd(k)
+							}
+						}
+					}
+				}
+			}
+		}
 	case *ssa.Parameter:
 		if r := bp.sc.Resolve(v); r != ssa.Value(v) {
 			upd(bp.lenLB(r, depth+1))
@@ -540,6 +574,20 @@ func (bp *boundsProver) indexOK(base, idx ssa.Value) (bool, string) {
 		return false, fmt.Sprintf("len(%s) is only known to be ≥ %d, index %d", render(base), lb, k)
 	}
 	ml := madeLen(base)
+	madeWhere := "in this function"
+	if ml == nil {
+		// the slice is a parameter: what the calling context made it with
+		if rb := bp.sc.Resolve(base); rb != strip(base) {
+			ml = madeLen(rb)
+			madeWhere = "by the caller"
+		}
+	}
+	// a constant upper bound on the index (an entry of a local table of constants)
+	if ub, ok := constUB(idx, 0); ok {
+		if lb := bp.lenLB(base, 0); lb > ub {
+			return true, fmt.Sprintf("0 ≤ index ≤ %d (every value the index can take is one of the constants of a local table) and len(%s) ≥ %d on every path", ub, render(base), lb)
+		}
+	}
 	// upper bounds on idx: idx < bound
 	for _, f := range bp.facts {
 		if f.Op != token.LSS && f.Op != token.GTR {
@@ -556,7 +604,7 @@ func (bp *boundsProver) indexOK(base, idx ssa.Value) (bool, string) {
 			return true, "index < len(" + render(base) + ")"
 		}
 		if ml != nil && (bp.same(ml, bound) || bp.sameLen(ml, bound)) {
-			return true, "index < n and the slice was made with length n in this function"
+			return true, "index < n and the slice was made with length n " + madeWhere
 		}
 		// bound = len(z) where z was made with len(base)
 		if lz, ok := lenOperand(strip(bound)); ok {
@@ -596,6 +644,49 @@ func (bp *boundsProver) indexOK(base, idx ssa.Value) (bool, string) {
 			room := vadd(vadd(L, I, -1), vconst(1), -1)
 			if I.nonneg() && room.nonneg() {
 				return true, "0 ≤ index < length of the slice made here, by linear arithmetic over lengths (index = " + I.String() + ", length = " + L.String() + ")"
+			}
+		}
+	}
+	// sort.Slice(x, func(i, j int) bool { … x[i] … x[j] … }): the standard library calls less with 0 ≤ i, j < len(x)
+	if ip, ok := strip(idx).(*ssa.Parameter); ok && ip.Parent().Parent() != nil && paramIndex(ip) <= 1 && len(ip.Parent().Params) == 2 {
+		lit := ip.Parent()
+		for _, in := range instrsOf(lit.Parent()) {
+			cl, ok := in.(*ssa.Call)
+			if !ok || len(cl.Call.Args) != 2 || !(isCallTo(&cl.Call, "sort", "Slice") || isCallTo(&cl.Call, "sort", "SliceStable")) {
+				continue
+			}
+			mc, ok := strip(cl.Call.Args[1]).(*ssa.MakeClosure)
+			if !ok || mc.Fn != ssa.Value(lit) {
+				continue
+			}
+			sorted := cl.Call.Args[0]
+			if mi, isMI := sorted.(*ssa.MakeInterface); isMI {
+				sorted = mi.X
+			}
+			b := strip(base)
+			if ld, ok := b.(*ssa.UnOp); ok && ld.Op == token.MUL {
+				b = ld.X
+			}
+			if fv, ok := b.(*ssa.FreeVar); ok {
+				for k, v := range lit.FreeVars {
+					if v != fv || k >= len(mc.Bindings) {
+						continue
+					}
+					bind := mc.Bindings[k]
+					if sameValue(bind, sorted) {
+						return true, "index is an argument sort.Slice passes to its less function: 0 ≤ i < len of the slice being sorted"
+					}
+					if al, ok := bind.(*ssa.Alloc); ok {
+						sts := storesToCell(al)
+						if sl, ok := strip(sorted).(*ssa.UnOp); ok && sl.Op == token.MUL && sl.X == ssa.Value(al) && len(sts) == 1 {
+							return true, "index is an argument sort.Slice passes to its less function: 0 ≤ i < len of the captured slice (assigned once)"
+						}
+						// a parameter spilled to a cell and captured: the same parameter is what is sorted
+						if len(sts) == 1 && sameValue(sts[0].Val, sorted) {
+							return true, "index is an argument sort.Slice passes to its less function: 0 ≤ i < len of the slice being sorted (captured parameter)"
+						}
+					}
+				}
 			}
 		}
 	}
@@ -717,6 +808,37 @@ func (bp *boundsProver) prove(in ssa.Instruction) (bool, string) {
 						return true, "lower bound ≤ len(" + render(x.X) + ") on every path"
 					}
 				}
+				// x[i·k:] with i < len(x)/k: i ≤ len(x)/k − 1, so i·k ≤ len(x) − k
+				if mul, ok := strip(x.Low).(*ssa.BinOp); ok && mul.Op == token.MUL {
+					for _, pr := range [][2]ssa.Value{{mul.X, mul.Y}, {mul.Y, mul.X}} {
+						k, isK := constInt(pr[1])
+						if !isK || k <= 0 {
+							continue
+						}
+						for _, f := range bp.facts {
+							if f.Op != token.LSS && f.Op != token.GTR {
+								continue
+							}
+							i, q := f.X, f.Y
+							if f.Op == token.GTR {
+								i, q = f.Y, f.X
+							}
+							if !bp.same(i, pr[0]) {
+								continue
+							}
+							quo, isQ := strip(q).(*ssa.BinOp)
+							if !isQ || quo.Op != token.QUO {
+								continue
+							}
+							if k2, isK2 := constInt(quo.Y); !isK2 || k2 != k {
+								continue
+							}
+							if lx, isLen := lenOperand(strip(quo.X)); isLen && (bp.same(lx, x.X) || sameBytes(lx, x.X)) {
+								return true, fmt.Sprintf("lower bound i·%d with i < len(%s)/%d on every path", k, render(x.X), k)
+							}
+						}
+					}
+				}
 			}
 			return false, ""
 		}
@@ -810,6 +932,158 @@ func mkSite(kind string, in ssa.Instruction, r func() string, detail string) pan
 	expr := r()
 	renderCanon++
 	canon := r()
+	// the same site seen from its own function alone (a transparent helper's parameters by their types,
+	// not by what the only caller passes): a reason recorded for the function applies either way
+	renderLocalParams++
+	alt := r()
+	renderLocalParams--
 	renderCanon--
-	return panicSite{kind: kind, in: in, expr: expr, detail: detail, canon: canon}
+	if alt == canon {
+		alt = ""
+	}
+	return panicSite{kind: kind, in: in, expr: expr, detail: detail, canon: canon, alt: alt, render: r}
+}
+
+// constUB: an upper bound for a non-negative integer value that can only be one of finitely many
+// constants: a constant, a φ of such values, or field f of an element of a local array/slice literal in
+// which every element's field f is given a non-negative constant (`for _, e := range table { x[e.pos] }`).
+func constUB(v ssa.Value, depth int) (int64, bool) {
+	if depth > 4 || v == nil {
+		return 0, false
+	}
+	noParamLook++
+	v = strip(v)
+	noParamLook--
+	if k, ok := constInt(v); ok {
+		return k, k >= 0
+	}
+	switch x := v.(type) {
+	case *ssa.Phi:
+		var ub int64
+		for _, e := range x.Edges {
+			k, ok := constUB(e, depth+1)
+			if !ok {
+				return 0, false
+			}
+			if k > ub {
+				ub = k
+			}
+		}
+		return ub, true
+	case *ssa.Field:
+		// field of an element loaded from the table
+		ld, ok := x.X.(*ssa.UnOp)
+		if !ok || ld.Op != token.MUL {
+			return 0, false
+		}
+		st, ok := x.X.Type().Underlying().(*types.Struct)
+		if !ok {
+			return 0, false
+		}
+		return tableFieldUB(ld.X, st.Field(x.Field))
+	case *ssa.UnOp:
+		if x.Op != token.MUL {
+			return 0, false
+		}
+		fa, ok := x.X.(*ssa.FieldAddr)
+		if !ok {
+			return 0, false
+		}
+		f := fieldOfAddr(fa)
+		// &table[i].f, or the field of a local copy of table[i] (the range variable)
+		if a, isA := fa.X.(*ssa.Alloc); isA {
+			if src := wholeStoreOf(a, x); src != nil {
+				if ld, ok := src.(*ssa.UnOp); ok && ld.Op == token.MUL {
+					return tableFieldUB(ld.X, f)
+				}
+			}
+			return 0, false
+		}
+		return tableFieldUB(fa.X, f)
+	}
+	return 0, false
+}
+
+// tableFieldUB: elemAddr is &table[i] for a local array literal `table` (the backing array of a slice
+// literal) that never escapes; the maximum of the constants stored into field f of its elements, which
+// must all be non-negative constants — and every element must be given one (a field left out is 0).
+func tableFieldUB(elemAddr ssa.Value, f *types.Var) (int64, bool) {
+	ia, ok := elemAddr.(*ssa.IndexAddr)
+	if !ok {
+		return 0, false
+	}
+	base := ia.X
+	if sl, ok := base.(*ssa.Slice); ok {
+		base = sl.X
+	}
+	arr, ok := base.(*ssa.Alloc)
+	if !ok || arr.Referrers() == nil {
+		return 0, false
+	}
+	if _, isArr := arr.Type().Underlying().(*types.Pointer).Elem().Underlying().(*types.Array); !isArr {
+		return 0, false
+	}
+	var ub int64
+	for _, r := range *arr.Referrers() {
+		switch y := r.(type) {
+		case *ssa.Slice, *ssa.DebugRef:
+			if sl, isSl := y.(*ssa.Slice); isSl && sl.Referrers() != nil {
+				// the slice of the table may be ranged over / indexed / measured, nothing else
+				for _, q := range *sl.Referrers() {
+					switch z := q.(type) {
+					case *ssa.IndexAddr, *ssa.DebugRef, *ssa.Range:
+					case *ssa.Call:
+						if bi, isB := z.Call.Value.(*ssa.Builtin); !isB || bi.Name() != "len" {
+							return 0, false
+						}
+					default:
+						return 0, false
+					}
+				}
+			}
+		case *ssa.IndexAddr:
+			if y.Referrers() == nil {
+				continue
+			}
+			for _, q := range *y.Referrers() {
+				switch z := q.(type) {
+				case *ssa.FieldAddr:
+					if z.Referrers() == nil {
+						continue
+					}
+					for _, w := range *z.Referrers() {
+						switch st := w.(type) {
+						case *ssa.Store:
+							if st.Addr != ssa.Value(z) {
+								return 0, false
+							}
+							if fieldOfAddr(z) == f {
+								k, isK := constInt(st.Val)
+								if !isK || k < 0 {
+									return 0, false
+								}
+								if k > ub {
+									ub = k
+								}
+							}
+						case *ssa.UnOp, *ssa.DebugRef:
+						default:
+							return 0, false
+						}
+					}
+				case *ssa.UnOp, *ssa.DebugRef:
+				case *ssa.Store:
+					if z.Addr == ssa.Value(y) {
+						return 0, false // a whole element is stored: not a literal of constants we can read
+					}
+					return 0, false
+				default:
+					return 0, false
+				}
+			}
+		default:
+			return 0, false
+		}
+	}
+	return ub, true
 }
